@@ -389,12 +389,20 @@ func updateStatusConditionsFromOwnedObject(
 			continue
 		}
 
+		condType, typeOK := condMap["type"].(string)
+		condStatus, statusOK := condMap["status"].(string)
+		condReason, reasonOK := condMap["reason"].(string)
+		if !typeOK || !statusOK || !reasonOK {
+			return apimachineryerrors.NewBadRequest("malformed condition")
+		}
+		condMessage, _ := condMap["message"].(string)
+
 		newCond := metav1.Condition{
-			Type:               condMap["type"].(string),
-			Status:             metav1.ConditionStatus(condMap["status"].(string)),
+			Type:               condType,
+			Status:             metav1.ConditionStatus(condStatus),
 			ObservedGeneration: objectTemplate.ClientObject().GetGeneration(),
-			Reason:             condMap["reason"].(string),
-			Message:            condMap["message"].(string),
+			Reason:             condReason,
+			Message:            condMessage,
 		}
 		meta.SetStatusCondition(objectTemplate.GetConditions(), newCond)
 	}
